@@ -546,22 +546,30 @@ class Ovld:
                 f"There is already a method for {sigstring(sig.types)}"
             )
 
-        def _set(sig, fn):
-            if sig in self._defns:
-                # Push down the existing handler with a lower tiebreak
-                msig = replace(sig, tiebreak=sig.tiebreak - 1)
-                _set(msig, self._defns[sig])
-            self._defns[sig] = fn
-
-        _set(sig, fn)
+        self._set_defn(sig, fn)
 
         self._update()
         return self
 
+    def _set_defn(self, sig, fn):
+        if sig in self._defns:
+            # Push down the existing handler with a lower tiebreak
+            msig = replace(sig, tiebreak=sig.tiebreak - 1)
+            self._set_defn(msig, self._defns[sig])
+        self._defns[sig] = fn
+
     def unregister(self, fn):
         """Unregister a function."""
         self._attempt_modify()
-        self._defns = {sig: f for sig, f in self._defns.items() if f is not fn}
+        # Re-insert what remains from oldest to newest, so that tiebreaks are
+        # renumbered as if fn had never been registered
+        remaining = sorted(
+            ((sig, f) for sig, f in self._defns.items() if f is not fn),
+            key=lambda entry: entry[0].tiebreak,
+        )
+        self._defns = {}
+        for sig, f in remaining:
+            self._set_defn(replace(sig, tiebreak=0), f)
         self._update()
 
     def _update(self):
